@@ -199,3 +199,255 @@ pub proof fn lemma_stmts(v: Vec<Statement>, n: nat)
 		assert(v@.take(n as int).last() == v@[n - 1]);
 	}
 }
+
+// ---- ValueType: a type that reaches the resolver is FULLY resolved - no named array length, no unresolved struct-or-word at
+//      any depth (both arms of the code are `unreachable!()`: see the report), every struct / word identifier scoped.  Such a
+//      type never fails to resolve and carries no error of its own: an ill-formed or unknown type was replaced by an
+//      `Err(Poison)` in the enclosing Poisonable<ValueType> by the typer.
+pub open spec fn vt_pre(t: ValueType) -> bool
+	decreases t
+{
+	match t {
+		ValueType::Array { element_type, .. } => vt_pre(*element_type),
+		ValueType::ArrayWithNamedLength { .. } => false,
+		ValueType::Slice { element_type } => vt_pre(*element_type),
+		ValueType::SlicePointer { element_type } => vt_pre(*element_type),
+		ValueType::EndlessArray { element_type } => vt_pre(*element_type),
+		ValueType::Arraylike { element_type } => vt_pre(*element_type),
+		ValueType::Struct { identifier } => identifier.pre(),
+		ValueType::Word { identifier, .. } => identifier.pre(),
+		ValueType::UnresolvedStructOrWord { .. } => false,
+		ValueType::Pointer { deref_type } => vt_pre(*deref_type),
+		ValueType::View { deref_type } => vt_pre(*deref_type),
+		_ => true,
+	}
+}
+// the resolved type is the SAME type constructor around the resolved parts (lengths and word sizes kept)
+pub open spec fn vt_resolves_to(t: ValueType, x: resolved::ValueType) -> bool
+	decreases t
+{
+	match t {
+		ValueType::Void => x is Void, ValueType::Int8 => x is Int8, ValueType::Int16 => x is Int16, ValueType::Int32 => x is Int32,
+		ValueType::Int64 => x is Int64, ValueType::Int128 => x is Int128, ValueType::Uint8 => x is Uint8, ValueType::Uint16 => x is Uint16,
+		ValueType::Uint32 => x is Uint32, ValueType::Uint64 => x is Uint64, ValueType::Uint128 => x is Uint128, ValueType::Usize => x is Usize,
+		ValueType::Char8 => x is Char8, ValueType::Bool => x is Bool,
+		ValueType::Array { element_type, length } => x matches resolved::ValueType::Array { element_type: e, length: l } && l == length && vt_resolves_to(*element_type, *e),
+		ValueType::Slice { element_type } => x matches resolved::ValueType::Slice { element_type: e } && vt_resolves_to(*element_type, *e),
+		ValueType::SlicePointer { element_type } => x matches resolved::ValueType::SlicePointer { element_type: e } && vt_resolves_to(*element_type, *e),
+		ValueType::EndlessArray { element_type } => x matches resolved::ValueType::EndlessArray { element_type: e } && vt_resolves_to(*element_type, *e),
+		ValueType::Arraylike { element_type } => x matches resolved::ValueType::Arraylike { element_type: e } && vt_resolves_to(*element_type, *e),
+		ValueType::Struct { identifier } => x matches resolved::ValueType::Struct { identifier: i } && identifier.resolves_to(i),
+		ValueType::Word { identifier, size_in_bytes } => x matches resolved::ValueType::Word { identifier: i, size_in_bytes: n } && n == size_in_bytes && identifier.resolves_to(i),
+		ValueType::Pointer { deref_type } => x matches resolved::ValueType::Pointer { deref_type: d } && vt_resolves_to(*deref_type, *d),
+		ValueType::View { deref_type } => x matches resolved::ValueType::View { deref_type: d } && vt_resolves_to(*deref_type, *d),
+		_ => false,
+	}
+}
+
+// ---- the Expression cluster (Expression <-> Reference <-> ReferenceStep, Expression <-> MemberExpression): errs / poisoned / pre in
+//      terms of the FIELDS by mutual structural recursion; vectors are folded front to back.  Where the code looks at a second
+//      group of parts only after the first resolved (`a.resolve()?; b.resolve()?`), or raises its OWN error only after its parts
+//      resolved, the definition says exactly that: the errors of the FIRST FAILING GROUP.
+//      The verdicts of the operator / cast checks (binary_type_of, unary_type_of, bit_cast_type_of, primitive_cast_of) are
+//      deterministic functions of the node (prelude/resnode_standins.rs); WHICH error they raise is unit U-RES's subject.
+pub open spec fn naked_literal_error(suggested_type: ValueType, location: Location) -> Seq<Error> {
+	seq![Error::AmbiguousTypeOfNakedIntegerLiteral { suggested_type, location }]
+}
+pub open spec fn exprs_errs(v: Vec<Expression>, n: nat) -> Seq<Error>
+	decreases v, n
+{
+	if n == 0 || n > v@.len() { Seq::empty() } else { exprs_errs(v, (n - 1) as nat) + expr_errs(v@[n - 1]) }
+}
+pub open spec fn mexprs_errs(v: Vec<MemberExpression>, n: nat) -> Seq<Error>
+	decreases v, n
+{
+	if n == 0 || n > v@.len() { Seq::empty() } else { mexprs_errs(v, (n - 1) as nat) + mexpr_errs(v@[n - 1]) }
+}
+pub open spec fn steps_errs(v: Vec<ReferenceStep>, n: nat) -> Seq<Error>
+	decreases v, n
+{
+	if n == 0 || n > v@.len() { Seq::empty() } else { steps_errs(v, (n - 1) as nat) + step_errs(v@[n - 1]) }
+}
+pub open spec fn mexpr_errs(m: MemberExpression) -> Seq<Error>
+	decreases m, 0nat
+{
+	m.name.errs() + expr_errs(m.expression)
+}
+pub open spec fn step_errs(s: ReferenceStep) -> Seq<Error>
+	decreases s, 0nat
+{
+	match s { ReferenceStep::Element { argument, .. } => expr_errs(*argument), _ => Seq::empty() }
+}
+// a reference: the base first; its steps are looked at only when the base resolved
+pub open spec fn ref_errs(r: Reference) -> Seq<Error>
+	decreases r, 0nat
+{
+	if fails(r.base) { r.base.errs() } else { steps_errs(r.steps, r.steps@.len()) }
+}
+pub open spec fn expr_errs(e: Expression) -> Seq<Error>
+	decreases e, 0nat
+{
+	match e {
+		Expression::Binary { op, left, right, location_of_op, .. } =>
+			if (expr_errs(*left).len() > 0 || expr_poisoned(*left)) || (expr_errs(*right).len() > 0 || expr_poisoned(*right)) { expr_errs(*left) + expr_errs(*right) } else { own_errs(binary_type_of(op, *left, *right, location_of_op)) },
+		Expression::Unary { op, expression, location_of_op, .. } =>
+			if (expr_errs(*expression).len() > 0 || expr_poisoned(*expression)) { expr_errs(*expression) } else { own_errs(unary_type_of(op, *expression, location_of_op)) },
+		Expression::BooleanLiteral { .. } => Seq::empty(),
+		Expression::SignedIntegerLiteral { value_type: Some(vt), .. } => vt.errs(),
+		Expression::SignedIntegerLiteral { value_type: None, location, .. } => naked_literal_error(ValueType::Int32, location),
+		Expression::BitIntegerLiteral { value_type: Some(vt), .. } => vt.errs(),
+		Expression::BitIntegerLiteral { value_type: None, location, .. } => naked_literal_error(ValueType::Uint64, location),
+		Expression::ArrayLiteral { array, element_type: Some(et) } => exprs_errs(array.elements, array.elements@.len()) + et.errs(),
+		Expression::ArrayLiteral { array, element_type: None } => seq![Error::AmbiguousTypeOfArrayLiteral { location: array.location }],
+		Expression::StringLiteral { .. } => Seq::empty(),
+		Expression::Structural { members, structural_type, .. } =>
+			if fails(structural_type) { structural_type.errs() } else { mexprs_errs(members, members@.len()) },
+		Expression::Parenthesized { inner, .. } => expr_errs(*inner),
+		Expression::Deref { reference, deref_type } =>
+			if (ref_errs(reference).len() > 0 || ref_poisoned(reference)) { ref_errs(reference) } else { match deref_type { Some(dt) => dt.errs(), None => seq![Error::AmbiguousType { location: reference.location }] } },
+		Expression::Autocoerce { expression, coerced_type } => expr_errs(*expression) + coerced_type.errs(),
+		Expression::BitCast { expression, coerced_type, location, location_of_keyword } =>
+			if (expr_errs(*expression).len() > 0 || expr_poisoned(*expression)) { expr_errs(*expression) } else { own_errs(bit_cast_type_of(*expression, coerced_type, location, location_of_keyword)) },
+		Expression::TypeCast { expression, coerced_type, location_of_type, .. } =>
+			if (expr_errs(*expression).len() > 0 || expr_poisoned(*expression)) || fails(coerced_type) { expr_errs(*expression) + coerced_type.errs() }
+			else { own_errs(primitive_cast_of(*expression, coerced_type, location_of_type)) },
+		Expression::LengthOfArray { reference, .. } => ref_errs(reference),
+		Expression::SizeOf { queried_type, .. } => queried_type.errs(),
+		Expression::FunctionCall { name, builtin: None, arguments, return_type } =>
+			if fails(name) || exprs_errs(arguments, arguments@.len()).len() > 0 || exprs_poisoned(arguments, arguments@.len())
+				{ name.errs() + exprs_errs(arguments, arguments@.len()) }
+			else { match return_type { Some(rt) => rt.errs(), None => seq![Error::AmbiguousType { location: name.location }] } },
+		Expression::FunctionCall { name, builtin: Some(_), arguments, return_type } =>
+			if exprs_errs(arguments, arguments@.len()).len() > 0 || exprs_poisoned(arguments, arguments@.len()) { exprs_errs(arguments, arguments@.len()) }
+			else { match return_type { Some(rt) => rt.errs(), None => seq![Error::AmbiguousType { location: name.location }] } },
+		Expression::Poison(p) => poison_errs(p),
+	}
+}
+pub open spec fn exprs_poisoned(v: Vec<Expression>, n: nat) -> bool
+	decreases v, n
+{
+	if n == 0 || n > v@.len() { false } else { exprs_poisoned(v, (n - 1) as nat) || expr_poisoned(v@[n - 1]) }
+}
+pub open spec fn mexprs_poisoned(v: Vec<MemberExpression>, n: nat) -> bool
+	decreases v, n
+{
+	if n == 0 || n > v@.len() { false } else { mexprs_poisoned(v, (n - 1) as nat) || mexpr_poisoned(v@[n - 1]) }
+}
+pub open spec fn steps_poisoned(v: Vec<ReferenceStep>, n: nat) -> bool
+	decreases v, n
+{
+	if n == 0 || n > v@.len() { false } else { steps_poisoned(v, (n - 1) as nat) || step_poisoned(v@[n - 1]) }
+}
+pub open spec fn mexpr_poisoned(m: MemberExpression) -> bool
+	decreases m, 0nat
+{
+	m.name.poisoned() || expr_poisoned(m.expression)
+}
+pub open spec fn step_poisoned(s: ReferenceStep) -> bool
+	decreases s, 0nat
+{
+	match s { ReferenceStep::Element { argument, .. } => expr_poisoned(*argument), _ => false }
+}
+pub open spec fn ref_poisoned(r: Reference) -> bool
+	decreases r, 0nat
+{
+	if fails(r.base) { r.base.poisoned() } else { steps_poisoned(r.steps, r.steps@.len()) }
+}
+pub open spec fn expr_poisoned(e: Expression) -> bool
+	decreases e, 0nat
+{
+	match e {
+		Expression::Binary { op, left, right, location_of_op, .. } =>
+			if (expr_errs(*left).len() > 0 || expr_poisoned(*left)) || (expr_errs(*right).len() > 0 || expr_poisoned(*right)) { expr_poisoned(*left) || expr_poisoned(*right) } else { own_poisoned(binary_type_of(op, *left, *right, location_of_op)) },
+		Expression::Unary { op, expression, location_of_op, .. } =>
+			if (expr_errs(*expression).len() > 0 || expr_poisoned(*expression)) { expr_poisoned(*expression) } else { own_poisoned(unary_type_of(op, *expression, location_of_op)) },
+		Expression::SignedIntegerLiteral { value_type: Some(vt), .. } => vt.poisoned(),
+		Expression::BitIntegerLiteral { value_type: Some(vt), .. } => vt.poisoned(),
+		Expression::ArrayLiteral { array, element_type: Some(et) } => exprs_poisoned(array.elements, array.elements@.len()) || et.poisoned(),
+		Expression::Structural { members, structural_type, .. } =>
+			if fails(structural_type) { structural_type.poisoned() } else { mexprs_poisoned(members, members@.len()) },
+		Expression::Parenthesized { inner, .. } => expr_poisoned(*inner),
+		Expression::Deref { reference, deref_type } =>
+			if (ref_errs(reference).len() > 0 || ref_poisoned(reference)) { ref_poisoned(reference) } else { match deref_type { Some(dt) => dt.poisoned(), None => false } },
+		Expression::Autocoerce { expression, coerced_type } => expr_poisoned(*expression) || coerced_type.poisoned(),
+		Expression::BitCast { expression, coerced_type, location, location_of_keyword } =>
+			if (expr_errs(*expression).len() > 0 || expr_poisoned(*expression)) { expr_poisoned(*expression) } else { own_poisoned(bit_cast_type_of(*expression, coerced_type, location, location_of_keyword)) },
+		Expression::TypeCast { expression, coerced_type, location_of_type, .. } =>
+			if (expr_errs(*expression).len() > 0 || expr_poisoned(*expression)) || fails(coerced_type) { expr_poisoned(*expression) || coerced_type.poisoned() }
+			else { own_poisoned(primitive_cast_of(*expression, coerced_type, location_of_type)) },
+		Expression::LengthOfArray { reference, .. } => ref_poisoned(reference),
+		Expression::SizeOf { queried_type, .. } => queried_type.poisoned(),
+		Expression::FunctionCall { name, builtin: None, arguments, return_type } =>
+			if fails(name) || exprs_errs(arguments, arguments@.len()).len() > 0 || exprs_poisoned(arguments, arguments@.len())
+				{ name.poisoned() || exprs_poisoned(arguments, arguments@.len()) }
+			else { match return_type { Some(rt) => rt.poisoned(), None => false } },
+		Expression::FunctionCall { name, builtin: Some(_), arguments, return_type } =>
+			if exprs_errs(arguments, arguments@.len()).len() > 0 || exprs_poisoned(arguments, arguments@.len()) { exprs_poisoned(arguments, arguments@.len()) }
+			else { match return_type { Some(rt) => rt.poisoned(), None => false } },
+		Expression::Poison(p) => p is Poisoned,
+		_ => false,
+	}
+}
+// shorthands (outside the recursion)
+pub open spec fn expr_fails(e: Expression) -> bool { expr_errs(e).len() > 0 || expr_poisoned(e) }
+pub open spec fn ref_fails(r: Reference) -> bool { ref_errs(r).len() > 0 || ref_poisoned(r) }
+// what earlier stages guarantee: identifiers scoped, types fully resolved, member offsets computed, a coerced expression typed
+pub open spec fn mexpr_pre(m: MemberExpression) -> bool
+	decreases m
+{
+	m.name.pre() && m.offset is Some && expr_pre(m.expression)
+}
+pub open spec fn step_pre(s: ReferenceStep) -> bool
+	decreases s
+{
+	match s { ReferenceStep::Element { argument, .. } => expr_pre(*argument), ReferenceStep::Member { offset, .. } => offset is Some, _ => true }
+}
+pub open spec fn ref_pre(r: Reference) -> bool
+	decreases r
+{
+	r.base.pre() && forall|i: int| 0 <= i < r.steps@.len() ==> step_pre(#[trigger] r.steps@[i])
+}
+pub open spec fn expr_pre(e: Expression) -> bool
+	decreases e
+{
+	match e {
+		Expression::Binary { left, right, .. } => expr_pre(*left) && expr_pre(*right),
+		Expression::Unary { expression, .. } => expr_pre(*expression),
+		Expression::SignedIntegerLiteral { value_type: Some(vt), .. } => vt.pre(),
+		Expression::BitIntegerLiteral { value_type: Some(vt), .. } => vt.pre(),
+		Expression::ArrayLiteral { array, element_type: Some(et) } => et.pre() && forall|i: int| 0 <= i < array.elements@.len() ==> expr_pre(#[trigger] array.elements@[i]),
+		Expression::Structural { members, structural_type, .. } => structural_type.pre() && forall|i: int| 0 <= i < members@.len() ==> mexpr_pre(#[trigger] members@[i]),
+		Expression::Parenthesized { inner, .. } => expr_pre(*inner),
+		Expression::Deref { reference, deref_type } => ref_pre(reference) && match deref_type { Some(dt) => dt.pre(), None => true },
+		Expression::Autocoerce { expression, coerced_type } => expr_pre(*expression) && coerced_type.pre() && recorded_type(*expression) is Some,
+		Expression::BitCast { expression, .. } => expr_pre(*expression),
+		Expression::TypeCast { expression, coerced_type, .. } => expr_pre(*expression) && coerced_type.pre(),
+		Expression::LengthOfArray { reference, .. } => ref_pre(reference),
+		Expression::SizeOf { queried_type, .. } => queried_type.pre(),
+		Expression::FunctionCall { name, arguments, return_type, .. } => name.pre() && (match return_type { Some(rt) => rt.pre(), None => true })
+			&& forall|i: int| 0 <= i < arguments@.len() ==> expr_pre(#[trigger] arguments@[i]),
+		_ => true,
+	}
+}
+// links between the folds above and the list functions of the mirror trait
+pub proof fn lemma_exprs(v: Vec<Expression>, n: nat)
+	requires n <= v@.len(),
+	ensures rec_list_errs(v@.take(n as int)) == exprs_errs(v, n), rec_list_poisoned(v@.take(n as int)) == exprs_poisoned(v, n),
+	decreases n,
+{
+	if n > 0 { lemma_exprs(v, (n - 1) as nat); assert(v@.take(n as int).drop_last() =~= v@.take(n - 1)); assert(v@.take(n as int).last() == v@[n - 1]); }
+}
+pub proof fn lemma_mexprs(v: Vec<MemberExpression>, n: nat)
+	requires n <= v@.len(),
+	ensures rec_list_errs(v@.take(n as int)) == mexprs_errs(v, n), rec_list_poisoned(v@.take(n as int)) == mexprs_poisoned(v, n),
+	decreases n,
+{
+	if n > 0 { lemma_mexprs(v, (n - 1) as nat); assert(v@.take(n as int).drop_last() =~= v@.take(n - 1)); assert(v@.take(n as int).last() == v@[n - 1]); }
+}
+pub proof fn lemma_steps(v: Vec<ReferenceStep>, n: nat)
+	requires n <= v@.len(),
+	ensures rec_list_errs(v@.take(n as int)) == steps_errs(v, n), rec_list_poisoned(v@.take(n as int)) == steps_poisoned(v, n),
+	decreases n,
+{
+	if n > 0 { lemma_steps(v, (n - 1) as nat); assert(v@.take(n as int).drop_last() =~= v@.take(n - 1)); assert(v@.take(n as int).last() == v@[n - 1]); }
+}
